@@ -119,7 +119,7 @@ def run_projects(chk, asts, again=0, config="native", want_oracles=("C01", "C02"
             sc.setdefault("_end", obs["end"])
             view = O.scenario_view(p, sc)
             fs = {"C01": lambda: O.c01(p, sc), "C02": lambda: O.c02(p, sc, cal), "C03": lambda: O.c03(p, sc, view),
-                  "C04": lambda: O.c04(p, sc, view), "C05": lambda: O.c05(p, sc), "C06": lambda: O.c06(p, sc, view),
+                  "C04": lambda: O.c04(p, sc, view, cal), "C05": lambda: O.c05(p, sc), "C06": lambda: O.c06(p, sc, view, cal),
                   "C08": lambda: O.c08(p, sc, view, cal), "C10": lambda: O.c10(p, sc)}
             from . import gen as _gen
             envl = _gen.envelope_of(p)
